@@ -442,11 +442,20 @@ enum TimestampCfg {
 impl TimestampCfg {
     fn get_timestamp(&self) -> Option<String> {
         match self {
-            Self::Default | Self::Yes => Some(
-                DeferredNow::new()
-                    .format(TS_USCORE_DASHES_USCORE_DASHES)
-                    .to_string(),
-            ),
+            Self::Default | Self::Yes => {
+                // the start time is determined once; it must not change between two uses of
+                // the same FileSpec (rotation, listing and cleanup compute the name repeatedly)
+                static START_TIME: std::sync::OnceLock<String> = std::sync::OnceLock::new();
+                Some(
+                    START_TIME
+                        .get_or_init(|| {
+                            DeferredNow::new()
+                                .format(TS_USCORE_DASHES_USCORE_DASHES)
+                                .to_string()
+                        })
+                        .clone(),
+                )
+            }
             Self::No => None,
         }
     }
